@@ -86,6 +86,9 @@ type loopInfo struct {
 	directMod KeySet // keys written by stores of the loop body itself (not only by callees)
 	modLocals map[*ssa.Alloc]bool
 	allocs  bool
+	// object-precise havoc: keys all of whose writes in the body go to the object one loop-invariant value points to
+	rootVal map[string]ssa.Value
+	rootBad map[string]bool
 	// saved at header for preserve obligations
 	headerState *State
 	decAtHeader [][]Term
@@ -777,6 +780,11 @@ func (e *Enc) instrMod(in ssa.Instruction, li *loopInfo) {
 		for _, k := range e.p.storeKeys(x.Addr) {
 			li.mod.Add(k)
 			li.directMod.Add(k)
+			if fa, ok := x.Addr.(*ssa.FieldAddr); ok {
+				li.noteRoot(k, fa.X)
+			} else {
+				li.noteRoot(k, nil)
+			}
 		}
 	case *ssa.MapUpdate:
 		li.mod.Add(e.p.mapKey(x.Map.Type().Underlying().(*types.Map)))
@@ -790,8 +798,55 @@ func (e *Enc) instrMod(in ssa.Instruction, li *loopInfo) {
 		}
 	case ssa.CallInstruction:
 		li.allocs = true
-		li.mod.AddAll(e.callMod(x.Common()))
+		cm := e.callMod(x.Common())
+		li.mod.AddAll(cm)
+		c := x.Common()
+		_, kind, fn := e.calleeName(c)
+		fc := e.calleeContract(c)
+		static := kind == "func" && fn != nil && !c.IsInvoke() && len(c.Args) == len(fn.Params) && (fc == nil || !fc.HasAssigns)
+		if _, isClosure := c.Value.(*ssa.MakeClosure); isClosure {
+			static = false
+		}
+		for k := range cm {
+			if static {
+				if j, ok := e.p.paramRooted(fn, k); ok && j < len(c.Args) {
+					li.noteRoot(k, c.Args[j])
+					continue
+				}
+			}
+			li.noteRoot(k, nil)
+		}
 	}
+}
+
+// noteRoot: a write to key in the loop body goes to the object v points to (nil: unknown object).
+func (li *loopInfo) noteRoot(key string, v ssa.Value) {
+	if li.rootVal == nil {
+		li.rootVal = map[string]ssa.Value{}
+		li.rootBad = map[string]bool{}
+	}
+	if v == nil {
+		li.rootBad[key] = true
+		return
+	}
+	if in, ok := v.(ssa.Instruction); ok && in.Block() != nil && li.blocks[in.Block()] {
+		li.rootBad[key] = true // computed inside the loop: may differ between iterations
+		return
+	}
+	if old, ok := li.rootVal[key]; ok && old != v {
+		li.rootBad[key] = true
+		return
+	}
+	li.rootVal[key] = v
+}
+
+// loopRoot: the one object whose field `key` the loop body may write, if there is exactly one.
+func (li *loopInfo) loopRoot(key string) (ssa.Value, bool) {
+	if li.rootVal == nil || li.rootBad[key] {
+		return nil, false
+	}
+	v, ok := li.rootVal[key]
+	return v, ok
 }
 
 // callMod: heap keys a call may modify (contract assigns or inferred write set).
